@@ -132,7 +132,7 @@ pub fn check(f: &Facts, stats: &mut Stats) -> CheckResult {
     for (ia, a) in m.ids.iter().enumerate() {
         let ta = ont.hpo(*a).unwrap();
         for (ib, b) in m.ids.iter().enumerate() {
-            if big && (ia * 31 + ib * 17) % 251 != 0 && !(ia < 3 || ib < 3 || ia + 3 >= n_ids || ib + 3 >= n_ids) {
+            if big && (ia * 31 + ib * 17) % 401 != 0 && !(ia < 3 || ib < 3 || ia + 3 >= n_ids || ib + 3 >= n_ids) {
                 continue;
             }
             let tb = ont.hpo(*b).unwrap();
